@@ -22,6 +22,7 @@ pub mod crashpool;
 
 #[global_allocator]
 static GLOBAL: alloctrack::Tracking = alloctrack::Tracking;
+pub mod c12b;
 pub mod c13;
 pub mod specbin;
 pub mod c03;
